@@ -28,12 +28,13 @@ func init() {
 
 func (l *dependencyLoader) LoadEntry(c px.Context, name px.TypedName) px.LoaderEntry {
 	entry := l.basicLoader.LoadEntry(c, name)
-	if entry == nil {
-		entry = l.find(c, name)
-		if entry == nil {
-			entry = &loaderEntry{nil, nil}
+	if entry == nil || entry.Value() == nil {
+		// A recorded miss is not final: a module may have defined the name since
+		if found := l.find(c, name); found != nil && found.Value() != nil {
+			entry = l.SetEntry(name, found)
+		} else if entry == nil {
+			entry = l.SetEntry(name, &loaderEntry{nil, nil})
 		}
-		entry = l.SetEntry(name, entry)
 	}
 	return entry
 }
